@@ -14,7 +14,7 @@ CHECKS = {
     ),
     "C02": (
         "exhaustive enumeration of the operator x operand-type matrix over boundary values, of all operator pairs/triples in all tree shapes and parenthesisations, and of all short literal spellings, executed on the real Operation/Function entry points, parser and interpreter against a reference evaluator",
-        "Every binary/unary operator is applied to every ordered pair of 51 boundary values of the four types (incl. infinities and Doubles within Single resolution of a whole number) (result type = returned variant, compared exactly; through PRINT with two type probes); every ordered pair (and triple) of operators is evaluated in every tree shape with minimal and full parentheses; every literal spelling up to 6/7 characters that the manual classifies, and structured long spellings (1-9 mantissa digits x point position x 14 exponent spellings x suffix), are checked in the parsed statement; 14 numeric functions and assignment to each variable type. Exhaustive within these bounds.",
+        "Every binary/unary operator is applied to every ordered pair of 51 boundary values of the four types (incl. infinities and Doubles within Single resolution of a whole number) (result type = returned variant, compared exactly; through PRINT with two type probes); every relational operator must answer what its mirror image answers (a>=b and b<=a, ...) on all ordered pairs of 15 operands incl. not-a-number expressions, through the API, PRINT, variables and IF; every ordered pair (and triple) of operators is evaluated in every tree shape with minimal and full parentheses; every literal spelling up to 6/7 characters that the manual classifies, and structured long spellings (1-9 mantissa digits x point position x 14 exponent spellings x suffix), are checked in the parsed statement; 14 numeric functions and assignment to each variable type. Exhaustive within these bounds.",
         "Reference evaluator refmodel/value.rs (manual chapter 1). Exactly rounded operations are compared bit for bit, ^ and transcendental functions within 600 ulp / underflow to zero accepted; = and <> of floats nearer than 4 epsilon are skipped (tolerant equality is the implementation's design); the ordering operators are judged exactly.",
         "DESIGN.md §3 C02",
     ),
@@ -56,7 +56,7 @@ CHECKS = {
     ),
     "C13": (
         "exhaustive enumeration of interruption points, STOP/END placements and execute-quantum schedules per program of a bounded family, compared with the quantum-1 baseline; macro-step confluence on the state digest",
-        "For every program of the family (16 curated + the C01 space at small N) an interrupt is injected after every single-instruction call (also at a pending prompt), with and without a direct PRINT, then CONT; STOP and END are inserted before every statement; every uniform quantum, all two-phase schedules and all short mixed schedules are run; output and final variables must equal the uninterrupted quantum-1 run. Exhaustive over the stated schedules for the stated programs.",
+        "For every program of the family (16 curated + the C01 space at small N) an interrupt is injected after every single-instruction call (also at a pending prompt), with and without a direct PRINT, then CONT (continued in single-instruction calls and in 5000-instruction calls); STOP and END are inserted before every statement; every uniform quantum, all two-phase schedules and all short mixed schedules are run; output and final variables must equal the uninterrupted quantum-1 run. Exhaustive over the stated schedules for the stated programs.",
         "Differential oracle against the quantum-1 run of the same implementation; the forced newline of BREAK/errors, READY and a re-issued prompt are normalised; programs using TRON are excluded from the CONT comparisons.",
         "DESIGN.md §3 C13",
     ),
@@ -74,7 +74,7 @@ CHECKS = {
     ),
     "C16": (
         "exhaustive enumeration of all single and pairwise spelling deviations of every line of a bounded line space, compared by listing, parsed statements and execution with the canonical spelling",
-        "40 lines covering every statement kind and literal form plus every line of the small program space are re-spelled in all 1- and 2-deviation ways (case per token, blanks per gap, aliases ?, ', GO TO, GO SUB, LET, =<, =>, blanks inside two-character operators, lower-case exponent/radix letters); listing (blank-insensitive outside strings/remarks), parsed AST and run transcript must equal the canonical spelling's. Exhaustive within the bound.",
+        "40 lines covering every statement kind and literal form plus every line of the small program space are re-spelled in all 1- and 2-deviation ways (case per token, blanks per gap, aliases ?, ', GO TO, GO SUB, LET, =<, =>, blanks (also a blank and a tab mixed) inside two-character operators and GO TO / GO SUB, lower-case exponent/radix letters); listing (blank-insensitive outside strings/remarks), parsed AST and run transcript must equal the canonical spelling's. Exhaustive within the bound.",
         "The lister keeps the user's blanks by design, so listings are compared with blanks outside strings and remarks removed; gluing is only generated where the property allows it.",
         "DESIGN.md §3 C16",
     ),
@@ -98,7 +98,7 @@ CHECKS = {
     ),
     "C20": (
         "exhaustive enumeration of programs x single and pairwise layout transformations, transcripts compared up to reported line numbers",
-        "Every program of the bounded space is re-laid-out (filler REM / ' / empty lines at every gap, empty statements at every boundary, every split of a multi-statement line, direct statement over different stored programs, direct list vs one-line program) and must run to the same transcript after mapping line numbers. Exhaustive within the bound.",
+        "Every program of the bounded space is re-laid-out (filler REM / ' / empty lines at every gap, empty statements at every boundary, every split of a multi-statement line, direct statement over different stored programs, direct list vs one-line program) and must run to the same transcript after mapping line numbers; a three-line program is entered by 11 direct command sequences at each of its lines at all 84 ascending triples of the line numbers 0 1 2 9 10 32768 65527 65528 65529 and must behave (and terminate) as at 10 20 30. Exhaustive within the bound.",
         "Differential (implementation vs implementation); runs cut by the budget are compared on the common prefix; TRON programs are not split and get no trailing filler line.",
         "DESIGN.md §3 C20",
     ),
@@ -110,7 +110,7 @@ CHECKS = {
     ),
     "C06": (
         "explicit-state breadth-first search over sequences of assignments, DIM/ERASE, DEFtype, SWAP and CLEAR on a universe of scalar and array names (full-state digest), with a read-back of the whole universe after every transition compared with a reference store",
-        "All histories of depth 2 (thorough 3) over 379 statements and depth 3 (thorough 4) over a 163-statement core are executed; after the last step the statement's outcome and the values of all 11 scalar names and of every nameable / stored / corner / just-outside array element must equal the reference store (types via conversion on assignment, defaults, bounds, no aliasing, SWAP atomicity). Exhaustive within the depth bound.",
+        "All histories of depth 2 (thorough 3) over 333 statements and depth 3 (thorough 4) over a 142-statement core are executed; after the last step the statement's outcome and the values of all 12 scalar names and of every nameable / stored / corner / just-outside array element must equal the reference store (types via conversion on assignment, defaults, bounds, no aliasing, SWAP atomicity). Exhaustive within the depth bound.",
         "Reference refmodel/store.rs; values the manual leaves open after a DEFtype (type unchanged, value of another type) are left out of the read-back.",
         "DESIGN.md §3 C06",
     ),
